@@ -1935,8 +1935,6 @@ func (d *decoderMsgpackBytes) kSlice(f *decFnInfo, rv reflect.Value) {
 				rv, rvCanset = rvMakeSlice(rv, f.ti, rvlen, rvlen)
 				rvcap = rvlen
 				rvChanged = !rvCanset
-			} else {
-				halt.errorStr("cannot decode into non-settable slice")
 			}
 			if rvChanged && oldRvlenGtZero && rtelem0Mut {
 				rvCopySlice(rv, rv0, rtelem)
@@ -1988,20 +1986,21 @@ func (d *decoderMsgpackBytes) kSlice(f *decFnInfo, rv reflect.Value) {
 		}
 
 		if j >= rvlen {
+			if !(rvCanset || rvChanged) {
+
+				d.arrayCannotExpand(rvlen, j+1)
+				d.swallow()
+				continue
+			}
 
 			if rvlen < rvcap {
 				rvlen = rvcap
 				if rvCanset {
 					rvSetSliceLen(rv, rvlen)
-				} else if rvChanged {
-					rv = rvSlice(rv, rvlen)
 				} else {
-					halt.onerror(errExpandSliceCannotChange)
+					rv = rvSlice(rv, rvlen)
 				}
 			} else {
-				if !(rvCanset || rvChanged) {
-					halt.onerror(errExpandSliceCannotChange)
-				}
 				rv, rvcap, rvCanset = rvGrowSlice(rv, f.ti, rvcap, 1)
 
 				rvlen = rvcap
@@ -5993,8 +5992,6 @@ func (d *decoderMsgpackIO) kSlice(f *decFnInfo, rv reflect.Value) {
 				rv, rvCanset = rvMakeSlice(rv, f.ti, rvlen, rvlen)
 				rvcap = rvlen
 				rvChanged = !rvCanset
-			} else {
-				halt.errorStr("cannot decode into non-settable slice")
 			}
 			if rvChanged && oldRvlenGtZero && rtelem0Mut {
 				rvCopySlice(rv, rv0, rtelem)
@@ -6046,20 +6043,21 @@ func (d *decoderMsgpackIO) kSlice(f *decFnInfo, rv reflect.Value) {
 		}
 
 		if j >= rvlen {
+			if !(rvCanset || rvChanged) {
+
+				d.arrayCannotExpand(rvlen, j+1)
+				d.swallow()
+				continue
+			}
 
 			if rvlen < rvcap {
 				rvlen = rvcap
 				if rvCanset {
 					rvSetSliceLen(rv, rvlen)
-				} else if rvChanged {
-					rv = rvSlice(rv, rvlen)
 				} else {
-					halt.onerror(errExpandSliceCannotChange)
+					rv = rvSlice(rv, rvlen)
 				}
 			} else {
-				if !(rvCanset || rvChanged) {
-					halt.onerror(errExpandSliceCannotChange)
-				}
 				rv, rvcap, rvCanset = rvGrowSlice(rv, f.ti, rvcap, 1)
 
 				rvlen = rvcap
